@@ -25,6 +25,7 @@ type replWorkload struct {
 	Burst     int  // >0: at BurstAt the leader->follower stream is held back, Burst records are produced, then the stream is released at once
 	BurstAt   int64
 	Sparse    bool // cut positions on a coarse grid only (long streams)
+	RestartLeaderAt int64 // >0: the leader is killed and started again on its directory at this instant (its ring is then empty)
 }
 
 func c09Workloads(quick bool) []replWorkload {
@@ -48,6 +49,8 @@ func c09Workloads(quick bool) []replWorkload {
 		{Name: "transfer+stream", Steps: base, JoinAt: 2500 * ms, EndAt: 30 * sec},
 		{Name: "rotation", Steps: base, JoinAt: 2500 * ms, EndAt: 30 * sec, LeaderMod: func(c *hapi.Config) { c.RewriteSz = 12 + 64*3; c.FileBuf = 64 }},
 		{Name: "small-ring-buffer", Steps: base, JoinAt: 2500 * ms, EndAt: 40 * sec, LeaderMod: func(c *hapi.Config) { c.RingSz = 256; c.RingMaxSz = 256 }},
+		// the leader is restarted (empty ring, everything in files) before an empty follower asks for the full transfer
+		{Name: "leader-restart-then-join", Steps: base, RestartLeaderAt: 2500 * ms, JoinAt: 3800 * ms, EndAt: 30 * sec},
 	}
 	// a slow follower: 600 records become readable at once (more than the follower's 256 receive buffers)
 	ws = append(ws, replWorkload{Name: "burst-of-600-records", Steps: base, JoinAt: 2500 * ms, EndAt: 40 * sec, Burst: 600, BurstAt: 12 * sec, Sparse: true})
@@ -131,7 +134,33 @@ func runRepl(w *replWorkload, cut1, cut2 int) replOutcome {
 				l.BtoA.Hold = false
 			}
 		}
+		restarted := w.RestartLeaderAt == 0
+		restartLeader := func() {
+			vrt.AdvanceTo(w.RestartLeaderAt)
+			leader.Poke("flushaof")
+			vrt.Quiesce()
+			vrt.KillGroup("n0")
+			leader = hapi.Factories["n0"](lc)
+			if err := leader.Start(); err != nil {
+				out.Err = "leader restart: " + err.Error()
+				return
+			}
+			vrt.AdvanceTo(vrt.Elapsed() + 300*ms)
+			c, err = wire.Dial(nodeAddr(0))
+			if err != nil {
+				out.Err = err.Error()
+				return
+			}
+			_ = c.Send(make64(protocol.COMMAND_PING))
+			restarted = true
+		}
 		for _, st := range steps {
+			if !restarted && st.At >= w.RestartLeaderAt {
+				restartLeader()
+				if out.Err != "" {
+					return
+				}
+			}
 			if follower == nil && st.At >= w.JoinAt {
 				vrt.AdvanceTo(w.JoinAt)
 				join()
